@@ -149,6 +149,8 @@ class ScriptedBackend : public FlatBackend< MIPBackend<ScriptedBackend> > {
   ALLOW_STD_FEATURE(LAZY_USER_CUTS, true)
   ALLOW_STD_FEATURE(IIS, true)
   ALLOW_STD_FEATURE(RAYS, true)
+  ALLOW_STD_FEATURE(KAPPA, true)
+  double Kappa() override { g_calls.push_back("{\"op\":\"Kappa\"}"); return 123.5; }
   ALLOW_STD_FEATURE(RETURN_MIP_GAP, true)
   ALLOW_STD_FEATURE(RETURN_BEST_DUAL_BOUND, true)
 
